@@ -28,11 +28,12 @@ class Coll:
 def key_value(spec, item, pos):
     sel = spec[0]
     k, j = item[1], item[2]
-    if sel in ('@k', '.'):
+    # current() inside a sort key is the node being sorted (XSLT 12.4 with 10: the key is evaluated with that node as current node)
+    if sel in ('@k', '.', 'current()/@k', '//e[@id = current()/@id]/@k'):
         return k
     if sel == '@j':
         return j
-    if sel == 'string-length(@k)':
+    if sel in ('string-length(@k)', 'string-length(current())'):
         return float(len(k))
     if sel == '1 div @k':
         return X.arith('div', 1.0, X.str_to_num(k))
@@ -114,10 +115,10 @@ def doc_xml(items):
 
 def single_key_speclists():
     out = []
-    for sel in ('@k', '.', 'string-length(@k)', '1 div @k', 'number(@k) * 2'):
+    for sel in ('@k', '.', 'string-length(@k)', '1 div @k', 'number(@k) * 2', 'current()/@k', '//e[@id = current()/@id]/@k', 'string-length(current())'):
         for dt in ('text', 'number'):
             for desc in (False, True):
-                if sel in ('1 div @k', 'number(@k) * 2') and dt == 'text':
+                if sel in ('1 div @k', 'number(@k) * 2', 'string-length(current())') and dt == 'text':
                     continue
                 out.append([(sel, None, dt, desc, '', '')])
     return out
